@@ -32,6 +32,7 @@ type HarnessCfg struct {
 	Workers       int
 	Params        map[string]int // tier-dependent integer parameters readable through vParam
 	RealBase58    bool           // execute base58.Encode/Decode for real (Int mode) instead of the abstract bijection
+	RelaxFDiv     bool // float division by a constant is relaxed to its FMA characterisation
 	ModAsCondSub  bool           // (a+b) mod N as conditional subtraction (with a checked side condition)
 }
 
